@@ -199,18 +199,34 @@ def _sentinel_check(ctx, res, qualname: str, input_names_fn, what: str):
     inputs = input_names_fn(f)
     cl = Closure(ctx, f)
 
+    def _is_minus_one(v) -> bool:
+        return (isinstance(v, ast.UnaryOp) and isinstance(v.op, ast.USub) and isinstance(v.operand, ast.Constant) and v.operand.value == 1) \
+            or (isinstance(v, ast.Constant) and v.value == -1)
+
+    def _where_restore(e):
+        """np.where(mask, -1, X) possibly under a chain of view/astype method calls -> mask expr"""
+        while isinstance(e, ast.Call) and isinstance(e.func, ast.Attribute) and e.func.attr in ("astype", "reshape", "view", "squeeze"):
+            e = e.func.value
+        if isinstance(e, ast.Call) and norm(e.func) in ("np.where", "numpy.where") and len(e.args) == 3 and _is_minus_one(e.args[1]):
+            return e.args[0]
+        return None
+
     def is_restore(n) -> bool:
         a = n.ast
-        if n.kind != "stmt" or not isinstance(a, ast.Assign) or len(a.targets) != 1 or not isinstance(a.targets[0], ast.Subscript):
-            return False
-        tgt = a.targets[0]
-        if not (isinstance(tgt.value, ast.Name) and tgt.value.id in returned):
-            return False
-        if not (isinstance(a.value, ast.UnaryOp) and isinstance(a.value.op, ast.USub) and isinstance(a.value.operand, ast.Constant)
-                and a.value.operand.value == 1) and not (isinstance(a.value, ast.Constant) and a.value.value == -1):
+        mask_expr = None
+        if n.kind == "stmt" and isinstance(a, ast.Assign) and len(a.targets) == 1 and isinstance(a.targets[0], ast.Subscript):
+            tgt = a.targets[0]
+            if isinstance(tgt.value, ast.Name) and tgt.value.id in returned and _is_minus_one(a.value):
+                mask_expr = tgt.slice
+        elif n.kind == "stmt" and isinstance(a, ast.Assign) and len(a.targets) == 1 and isinstance(a.targets[0], ast.Name) \
+                and a.targets[0].id in returned:
+            mask_expr = _where_restore(a.value)
+        elif n.kind == "return" and a.value is not None:
+            v = a.value.elts[0] if isinstance(a.value, ast.Tuple) else a.value
+            mask_expr = _where_restore(v)
+        if mask_expr is None:
             return False
         # the mask: an '== -1' comparison whose left side derives from the input codes and not from the output
-        mask_expr = tgt.slice
         exprs = [mask_expr]
         for nm in names_in(mask_expr):
             for kind, node in cl.scope.bind.get(nm, []):
@@ -225,7 +241,7 @@ def _sentinel_check(ctx, res, qualname: str, input_names_fn, what: str):
                     for g in ast.walk(e):
                         if isinstance(g, ast.comprehension) and names_in(g.target) & left:
                             src |= names_in(g.iter)
-                    if src & inputs and not (left & returned):
+                    if src & inputs and not (left & (returned - inputs)):
                         return True
         return False
 
